@@ -9,7 +9,8 @@ on a fresh instance.  Oracle: reference selector (mc/ref.py).
 
 import itertools
 
-from ..drive import CFG8, Pair, typed_vals
+from ..drive import CFG8, Pair, compare, leak, typed_vals
+from ..env import VETO, ValidatorError, Veto
 from ..par import BlockResult, deadline, run_blocks, Hang
 from ..report import Report
 from ..spec import M, S, T, build
@@ -153,6 +154,8 @@ def explore_machine(res, label, cs, tier, hist_len):
                             p.activate()
             res.stats["states"] += len(nodes)
             res.stats["traces"] += 1
+            if "v1" in names:
+                veto_edges(res, built, cfg, m, names, asyn)
             # ---- all histories up to hist_len on fresh instances ----
             if hist_len and len(cs) <= 1:
                 steps = [(ev, v) for ev in ("go", "go_back", "back", "nope")
@@ -180,6 +183,41 @@ def explore_machine(res, label, cs, tier, hist_len):
                             res.violation({"category": _cat(r), "engine": cfg.engine},
                                           scenario_json(m, cfg, ops), r)
     res.stats["machines"] += 1
+
+
+def veto_edges(res, built, cfg, m, names, asyn):
+    """The validator aborts with an application-defined exception that is not an `Exception`
+    (a BaseException subclass): 'a validator that raises aborts the whole event with that
+    exception' all the same - the exception reaches the caller, no later candidate is tried, the
+    state is unchanged, and the next event is processed normally."""
+    from ..ref import Outcome
+    others = [n for n in names if n != "v1"]
+    salt = 0
+    for ev in ("go", "go_back"):
+        for v in valuations(others):
+            salt += 1
+            p = Pair(built, cfg)
+            r = p.construct()
+            if r is None and cfg.engine == "async":
+                r = p.activate()
+            ops = [["new", None], ["activate"] if asyn else None]
+            if r is None:
+                tv = typed_vals(v, salt)
+                e = p.ref.send(ev, dict(tv, v1=False), tag="veto")
+                try:
+                    o = p.impl.send(ev, dict(tv, v1=VETO), tag="veto")
+                except Veto as ex:
+                    o = Outcome("exc", ValidatorError(*ex.args), p.impl._obs())
+                r = compare(e, o, p.ref, p.impl) or leak(p.impl.sm, 0)
+                ops.append(["veto-send", ev, _j(tv)])
+                if r is None:
+                    r = p.send("toB", {n: True for n in names}, tag="next") or p.check_views()
+                    ops.append(["send", "toB", {n: True for n in names}, "next"])
+            res.stats["transitions"] += 2
+            res.hist["validator-veto-baseexception"] += 1
+            if r:
+                res.violation({"category": "veto:" + _cat(r), "engine": cfg.engine},
+                              scenario_json(m, cfg, ops), r)
 
 
 def _j(tv):
@@ -273,6 +311,14 @@ def replay(sc):
             r = p.send(op[1], op[2], tag=op[3])
             if r is None:
                 r = p.check_views()
+        elif op[0] == "veto-send":
+            from ..ref import Outcome
+            e = p.ref.send(op[1], dict(op[2], v1=False), tag="veto")
+            try:
+                o = p.impl.send(op[1], dict(op[2], v1=VETO), tag="veto")
+            except Veto as ex:
+                o = Outcome("exc", ValidatorError(*ex.args), p.impl._obs())
+            r = compare(e, o, p.ref, p.impl) or leak(p.impl.sm, 0)
         if r:
             return r
     return None
